@@ -121,11 +121,16 @@ pub fn graph_scenario(idx: usize, rng: &mut Rng, o: &GraphOpts, family: &str) ->
         w.fork(0, 1);
     }
     let wt = o.weights;
+    let cursors = matches!(family, "cursor" | "cursortext");
     for _ in 0..o.steps {
         if w.dead {
             break;
         }
         let n = w.n();
+        if cursors && rng.chance(1, 3) {
+            let r = rng.below(n);
+            w.take_cursors(r, rng, 2);
+        }
         let r = rng.below(n);
         let total = w.known.len();
         let c = rng.below(100);
@@ -254,6 +259,20 @@ pub fn graph_scenario(idx: usize, rng: &mut Rng, o: &GraphOpts, family: &str) ->
                     if let Some(last) = w.log.last_mut() {
                         last["afterload"] = serde_json::json!(true);
                     }
+                }
+            }
+        }
+    }
+    if cursors {
+        for r in 0..w.n() {
+            if w.dead {
+                break;
+            }
+            w.probe_cursors(r, None);
+            for _ in 0..3 {
+                let h = random_antichain(&w, r, rng);
+                if !h.is_empty() {
+                    w.probe_cursors(r, Some(h));
                 }
             }
         }
